@@ -242,3 +242,43 @@ func runLateErrorRoutes(c *Ctx, rule string) {
 		c.Undecided(rule, "service.handleQuery", "expected exactly one func(error) callback, found "+sprint(n))
 	}
 }
+
+// ---- C19-K4: nothing the caller passes is ignored on the way to the service.
+func runRemoteParamsUsed(c *Ctx, rule string) {
+	p := c.P
+	c.Rule(rule, "every named parameter of the remote implementation of lake/api.Interface and of the api/client.Connection request methods is used (flows into the request): a parameter that is accepted and ignored makes the service act on another request than direct access would")
+	n := 0
+	check := func(fn *ssa.Function) {
+		for i, prm := range fn.Params {
+			if i == 0 || prm.Name() == "_" || prm.Name() == "" || short(prm.Type().String()) == "context.Context" {
+				continue
+			}
+			n++
+			used := false
+			for _, r := range *prm.Referrers() {
+				if _, ok := r.(*ssa.DebugRef); !ok {
+					used = true
+				}
+			}
+			construct := fnName(fn) + " parameter " + prm.Name()
+			if used {
+				c.OK(rule, construct, prm.Pos(), "used")
+			} else {
+				c.Fail(rule, construct, prm.Pos(), "the parameter is accepted but never used: what the caller asked for (commit message, object list, flag) does not reach the service")
+			}
+		}
+	}
+	for _, fn := range p.FuncsIn("lake/api") {
+		if fn.Parent() == nil && fn.Signature.Recv() != nil && namedOf(fn.Signature.Recv().Type()) == "lake/api.remote" {
+			check(fn)
+		}
+	}
+	for _, fn := range p.FuncsIn("api/client") {
+		if fn.Parent() == nil && fn.Signature.Recv() != nil && namedOf(fn.Signature.Recv().Type()) == "api/client.Connection" && ast_IsExported(fn.Name()) {
+			check(fn)
+		}
+	}
+	if n < 60 {
+		c.Undecided(rule, "remote / Connection methods", "fewer than 60 parameters found ("+sprint(n)+")")
+	}
+}
